@@ -171,6 +171,129 @@ use crate::assert_invariant;
 /// let config = extract_hevc_config(&keyframe).expect("should have config");
 /// assert_eq!(config.vps[0] >> 1 & 0x3f, 32);  // VPS NAL type
 /// ```
+/// chroma_format_idc, bit_depth_luma_minus8 and bit_depth_chroma_minus8 for the `hvcC`
+/// record, read from the SPS NAL unit the record carries (ISO/IEC 14496-15 requires the
+/// record's fields to be those of the stream). An SPS that cannot be read that far is
+/// described as 4:2:0, 8 bit.
+pub(crate) fn hvcc_chroma_and_depths(sps: &[u8]) -> (u8, u8, u8) {
+    parse_sps_chroma_and_depths(sps).unwrap_or((1, 0, 0))
+}
+
+/// Front of seq_parameter_set_rbsp() (H.265 7.3.2.2.1), skipping profile_tier_level()
+/// (7.3.3) including its optional sub-layer part.
+fn parse_sps_chroma_and_depths(sps: &[u8]) -> Option<(u8, u8, u8)> {
+    // Drop the two-byte NAL header and the emulation prevention bytes.
+    let mut rbsp = Vec::with_capacity(sps.len());
+    let mut zeros = 0;
+    for &byte in sps.get(2..)? {
+        if zeros >= 2 && byte == 3 {
+            zeros = 0;
+            continue;
+        }
+        zeros = if byte == 0 { zeros + 1 } else { 0 };
+        rbsp.push(byte);
+    }
+    let mut bits = SpsBits {
+        rbsp: &rbsp,
+        pos: 0,
+    };
+
+    let _sps_video_parameter_set_id = bits.read_bits(4)?;
+    let max_sub_layers_minus1 = bits.read_bits(3)? as usize;
+    let _temporal_id_nesting_flag = bits.read_bits(1)?;
+    if max_sub_layers_minus1 > 6 {
+        return None;
+    }
+
+    // general profile space/tier/idc, compatibility flags, constraint flags, level_idc
+    bits.skip(96)?;
+    let mut sub_layers = Vec::with_capacity(max_sub_layers_minus1);
+    for _ in 0..max_sub_layers_minus1 {
+        let profile_present = bits.read_bits(1)? == 1;
+        let level_present = bits.read_bits(1)? == 1;
+        sub_layers.push((profile_present, level_present));
+    }
+    if max_sub_layers_minus1 > 0 {
+        // reserved_zero_2bits for the unused sub-layer slots
+        bits.skip(2 * (8 - max_sub_layers_minus1))?;
+    }
+    for (profile_present, level_present) in sub_layers {
+        if profile_present {
+            bits.skip(88)?;
+        }
+        if level_present {
+            bits.skip(8)?;
+        }
+    }
+
+    let _sps_seq_parameter_set_id = bits.read_ue()?;
+    let chroma_format_idc = bits.read_ue()?;
+    if chroma_format_idc > 3 {
+        return None;
+    }
+    if chroma_format_idc == 3 {
+        let _separate_colour_plane_flag = bits.read_bits(1)?;
+    }
+    let _pic_width_in_luma_samples = bits.read_ue()?;
+    let _pic_height_in_luma_samples = bits.read_ue()?;
+    if bits.read_bits(1)? == 1 {
+        // conformance window offsets
+        for _ in 0..4 {
+            bits.read_ue()?;
+        }
+    }
+    let luma_minus8 = bits.read_ue()?;
+    let chroma_minus8 = bits.read_ue()?;
+    if luma_minus8 > 7 || chroma_minus8 > 7 {
+        // does not fit the three-bit fields of the record
+        return None;
+    }
+    Some((
+        chroma_format_idc as u8,
+        luma_minus8 as u8,
+        chroma_minus8 as u8,
+    ))
+}
+
+/// Bit cursor over an SPS payload without emulation prevention bytes.
+struct SpsBits<'a> {
+    rbsp: &'a [u8],
+    pos: usize,
+}
+
+impl SpsBits<'_> {
+    fn read_bits(&mut self, count: usize) -> Option<u32> {
+        let mut value = 0u32;
+        for _ in 0..count {
+            let byte = *self.rbsp.get(self.pos / 8)?;
+            value = (value << 1) | ((byte >> (7 - self.pos % 8)) & 1) as u32;
+            self.pos += 1;
+        }
+        Some(value)
+    }
+
+    fn skip(&mut self, count: usize) -> Option<()> {
+        if self.pos + count > self.rbsp.len() * 8 {
+            return None;
+        }
+        self.pos += count;
+        Some(())
+    }
+
+    /// Unsigned Exp-Golomb code, ue(v).
+    fn read_ue(&mut self) -> Option<u32> {
+        let mut leading_zeros = 0usize;
+        while self.read_bits(1)? == 0 {
+            leading_zeros += 1;
+            if leading_zeros > 31 {
+                return None;
+            }
+        }
+        let suffix = self.read_bits(leading_zeros)?;
+        Some((1u32 << leading_zeros) - 1 + suffix)
+    }
+}
+
 pub fn extract_hevc_config(data: &[u8]) -> Option<HevcConfig> {
     if data.is_empty() {
         return None;
